@@ -1,7 +1,7 @@
 #!/bin/bash
 # Run every registered check (quick tier by default) and print one summary line each.
 TIER=${1:-quick}
-cd /verif
+cd "$(dirname "$0")/.."
 rc=0
 for id in $(python3 -c "import json;print(' '.join(c['property_id'] for c in json.load(open('MANIFEST.json'))['checks']))"); do
   out=$(./check $id --tier $TIER 2>&1); e=$?
